@@ -3,6 +3,7 @@ package main
 import (
 	"fmt"
 	"math"
+	"math/big"
 	"strings"
 
 	"github.com/db47h/decimal"
@@ -107,8 +108,19 @@ func fmaClass(x, y, u cls, mode decimal.RoundingMode) expect {
 	if u.form == 2 {
 		return expect{known: true, res: u}
 	}
-	// remaining combinations involve the value of the product: only "no panic"
-	// and validity are asserted (the zero-sum sign of FMA is C03's subject)
+	if p.known && p.res.form == 0 {
+		// the product is an exact zero with the XOR sign: x*y + u is the sum ±0 + u
+		return sumClass(p.res, u, mode)
+	}
+	if u.form == 0 {
+		// finite product + ±0: the sign is the product's
+		return expect{}
+	}
+	// finite product + finite u: the value decides, except that an exactly zero
+	// sum of opposite-signed terms is +0 (-0 under ToNegativeInf)
+	if (x.neg != y.neg) != u.neg {
+		return expect{zeroSumChecked: true, zeroNeg: mode == decimal.ToNegativeInf}
+	}
 	return expect{}
 }
 
@@ -232,6 +244,22 @@ func (o *oracleC04) after(c *stepCtx) *ViolationRec {
 			o.cnt["constructed_exact_cancellations"]++
 			if post.Form != 0 || post.Neg != ex.zeroNeg {
 				return fail("wrong-zero-sum-sign", "x + (-x) must be an exact zero with sign bit %v under mode %d, got %s", ex.zeroNeg, mode, post.Value())
+			}
+		}
+	}
+	if ex.zeroSumChecked && name == "FMA" {
+		// x*y + u with u = -(x*y) exactly: decided with integer arithmetic from the operands
+		x, y, u := refFromObs(c.pre[op.A[0]]), refFromObs(c.pre[op.A[1]]), refFromObs(c.pre[op.A[2]])
+		if x.form == 1 && y.form == 1 && u.form == 1 && len(c.pre[op.A[0]].Digits)+len(c.pre[op.A[1]].Digits) < 4000 {
+			p := new(big.Int).Mul(x.D, y.D)
+			pe := x.E + y.E
+			// compare p*10^pe with u.D*10^u.E after removing trailing zeros of both
+			pd, ud := strings.TrimRight(p.String(), "0"), strings.TrimRight(u.D.String(), "0")
+			if pd == ud && pe+int64(len(p.String())-len(pd)) == u.E+int64(len(u.D.String())-len(ud)) {
+				o.cnt["constructed_fma_cancellations"]++
+				if post.Form != 0 || post.Neg != ex.zeroNeg {
+					return fail("wrong-zero-sum-sign", "x*y + (-(x*y)) must be an exact zero with sign bit %v under mode %d, got %s", ex.zeroNeg, mode, post.Value())
+				}
 			}
 		}
 	}
